@@ -367,7 +367,7 @@ class SE2(SO2):
         return cls([tr.trot2(t, t=[x, y]) for (t, x, y) in zip(x, y, argcheck.getunit(theta, unit))])
 
     @classmethod
-    def Exp(cls, S, check=True):  # pylint: disable=arguments-differ
+    def Exp(cls, S, check=True, se2=True):  # pylint: disable=arguments-differ
         """
         Construct a new SE(2) from se(2) Lie algebra
 
@@ -375,6 +375,8 @@ class SE2(SO2):
         :type S: numpy ndarray
         :param check: check that passed matrix is valid se(2), default True
         :type check: bool
+        :param se2: a 3x3 array is an se(2) matrix (default), else three twist vectors
+        :type se2: bool
         :return: homogeneous transform matrix
         :rtype: SE2 instance
 
@@ -391,6 +393,8 @@ class SE2(SO2):
         :seealso: :func:`spatialmath.base.transforms2d.trexp`, :func:`spatialmath.base.transformsNd.skew`
         """
         if isinstance(S, (list, tuple)) and not argcheck.isvector(S, 3):
+            return cls([tr.trexp2(s) for s in S])
+        elif argcheck.ismatrix(S, (-1, 3)) and not se2:
             return cls([tr.trexp2(s) for s in S])
         elif argcheck.isvector(S, 3) or argcheck.ismatrix(S, (3, 3)):
             return cls(tr.trexp2(S), check=False)
